@@ -98,7 +98,7 @@ def raw_ids(canon, z):
 
 class LockStep:
     def __init__(self, peers, zs, cfgs, ops, qbound=2, submits=0, guards=-1, n_menu=0, max_exec=200000, deadline=None,
-                 compare_ids=False, act_in_trace=True, observe=None):
+                 compare_ids=False, act_in_trace=True, observe=None, labels=None):
         self.peers = peers
         self.zs = zs              # per peer: description with that family's ids
         self.cfgs = cfgs
@@ -112,6 +112,7 @@ class LockStep:
         self.compare_ids = compare_ids
         self.act_in_trace = act_in_trace
         self.observe = observe
+        self.labels = labels or cfgs     # names used in messages (cfgs drive the normalisation)
         self.stats = collections.Counter()
         self.findings = []
         self.samples = []
@@ -238,14 +239,14 @@ class LockStep:
             self.stats['nontrivial'] += 1
         if bad is None:
             if len(self.samples) < 3 and nontrivial:
-                self.samples.append({'history': [(o, e, dict(l)) for o, e, l in hist], 'peers': self.cfgs, 'trace': results[0]['raw']})
+                self.samples.append({'history': [(o, e, dict(l)) for o, e, l in hist], 'peers': self.labels, 'trace': results[0]['raw']})
             return
         i, field = bad
         self.stats['divergent'] += 1
-        self.findings.append({'kind': 'divergence:' + field, 'peers': (self.cfgs[0], self.cfgs[i]),
+        self.findings.append({'kind': 'divergence:' + field, 'peers': (self.labels[0], self.labels[i]),
                               'history': [(o, e, dict(l)) for o, e, l in hist],
-                              'msg': f'{self.cfgs[0]} and {self.cfgs[i]} differ in {field}: {obs[0][field]!r} vs {obs[i][field]!r}',
-                              'raw': {self.cfgs[0]: results[0]['raw'], self.cfgs[i]: results[i]['raw']},
+                              'msg': f'{self.labels[0]} and {self.labels[i]} differ in {field}: {obs[0][field]!r} vs {obs[i][field]!r}',
+                              'raw': {self.labels[0]: results[0]['raw'], self.labels[i]: results[i]['raw']},
                               'classes': self.classes(obs)})
 
     def classes(self, obs):
@@ -258,4 +259,4 @@ class LockStep:
                     break
             else:
                 cl.append([i])
-        return [[self.cfgs[i] for i in c] for c in cl]
+        return [[self.labels[i] for i in c] for c in cl]
